@@ -407,7 +407,7 @@ class SymAlg(object):
 
 class ConcAlg(object):
     symbolic = False
-    tol = 1e-9
+    tol = 1e-7
 
     def E(self, x):
         return math.exp(min(x, 700.0)) if x != -float('inf') else 0.0
